@@ -137,6 +137,47 @@ DE_MODEL = {
 }
 
 
+def int_table_cases(lines):
+    """IC.<src>.<dst>|Convert and IS.<kind>|SetGet lines -> Coq cases ((input), observed)"""
+    zl = lambda n: "(%d)%%Z" % n
+    ic_terms, ic_raw, is_terms, is_raw = [], [], [], []
+    for k, lv in lines.items():
+        m = re.match(r"IC\.(\w+)\.(\w+)\|Convert$", k)
+        if m and not lv.startswith("PANIC"):
+            for item in lv.split(";"):
+                mm = re.match(r"(-?\d+):(-?\d+),(-?\d+)$", item)
+                if not mm:
+                    continue
+                x, ri, rd = (int(g) for g in mm.groups())
+                for indir, r in (("true", ri), ("false", rd)):
+                    ic_terms.append("((K%s, K%s, %s, %s), %s)" % (m.group(1), m.group(2), indir, zl(x), zl(r)))
+                    ic_raw.append((k, x, indir, r))
+        m = re.match(r"IS\.(\w+)\|SetGet$", k)
+        if m and not lv.startswith("PANIC"):
+            for item in lv.split(";"):
+                mm = re.match(r"(-?\d+):(true|false),(-?\d+)$", item)
+                if not mm:
+                    continue
+                is_terms.append("((K%s, %s), (%s, Some %s))" % (m.group(1), zl(int(mm.group(1))), mm.group(2), zl(int(mm.group(3)))))
+                is_raw.append((k, item))
+    return ic_terms, ic_raw, is_terms, is_raw
+
+
+def int_table_compare(ck, hdr, ic_terms, ic_raw, is_terms, is_raw, who):
+    zhdr = hdr + "Local Open Scope Z_scope.\n"
+    if ic_terms:
+        badc = ck.coq_mismatches(zhdr, ic_terms, "(fun c => match c with (s, d, i, x) => conv_read true s d i x end)", "Z.eqb",
+                                 "c15_iconv_" + who, shard=500)
+        for j in badc[:3]:
+            ck.correspondence_broken("C15.Model/convert_int(%s)" % who,
+                                     {"probe": ic_raw[j][0], "x": ic_raw[j][1], "indirect": ic_raw[j][2], "observed": ic_raw[j][3]})
+    if is_terms:
+        bads = ck.coq_mismatches(zhdr, is_terms, "(fun c => (overflow (fst c) (snd c), set_read (fst c) (snd c)))",
+                                 "(prod_eqb Bool.eqb (option_eqb Z.eqb))", "c15_iset_" + who, shard=500)
+        for j in bads[:3]:
+            ck.correspondence_broken("C15.Model/set_get_overflow(%s)" % who, {"probe": is_raw[j][0], "item": is_raw[j][1]})
+
+
 def run_e2e(ck, files, res):
     t0 = time.time()
     try:
@@ -288,6 +329,14 @@ def run(ck):
         elif i in bad_str:
             ck.correspondence_broken("C15.Model/llgo_str", {"type": gen.gosrc(t), "impl": real, "note": "implementation agrees with Go, model does not"})
 
+    # the scalar model against the reference toolchain's table (all cases; runs while llgo still builds)
+    n_go_ic = n_go_is = 0
+    if ck.tier != "quick":      # quick: llgo's lines are compared with go's and with the model below
+        g_ic, g_icr, g_is, g_isr = int_table_cases(G)
+        int_table_compare(ck, hdr, g_ic, g_icr, g_is, g_isr, "go")
+        n_go_ic, n_go_is = len(g_ic), len(g_is)
+        ck.phase("scalar-model-vs-go")
+
     # ---- (E) end to end ----
     th.join()
     ck.phase("e2e-built")
@@ -352,6 +401,15 @@ def run(ck):
             for j in badd[:3]:
                 ck.correspondence_broken("C15.Model/deep_equal", {"probe": de_names[j], "observed": Lo.get(de_names[j].split("(")[0] + "|DeepEqual")})
             n_lines += len(de_terms)
+        # integer Convert / Set / Get / Overflow tables: llgo's observed results vs the Coq model
+        ic_terms, ic_raw, is_terms, is_raw = int_table_cases(Lo)
+        if ck.tier == "quick" and len(ic_terms) > 2500:       # every pair of kinds stays; thin out the values
+            keep = sorted(ck.rng.sample(range(len(ic_terms)), 2500))
+            ic_terms, ic_raw = [ic_terms[j] for j in keep], [ic_raw[j] for j in keep]
+        int_table_compare(ck, hdr, ic_terms, ic_raw, is_terms, is_raw, "llgo")
+        n_lines += len(ic_terms) + len(is_terms)
+        ck.cov["scalar_model_cases"] = {"convert_vs_llgo": len(ic_terms), "set_get_overflow_vs_llgo": len(is_terms),
+                                        "convert_vs_go": n_go_ic, "set_get_overflow_vs_go": n_go_is}
     ck.cov["samples"] = [{"type": gen.gosrc(types[i]), "llgo": S.get(i, {}).get("real"), "go": G.get("T%d|String" % i)}
                          for i in (len(types) // 3, len(types) // 2, len(types) - 1)]
     ck.add_cov(evaluations=len(modelled) * 3 + len(gidx) + len(mt_terms) + n_lines,
